@@ -32,6 +32,7 @@ def pat_features(atoms):
     """pattern classes outside the grammar on which cmdline/fnmatch.c and libc are compared"""
     f = set()
     prev = None
+    in_star_run = False
     for a in atoms:
         if a.kind == 'lbr':
             f.add('unterminated')
@@ -45,8 +46,13 @@ def pat_features(atoms):
                 f.add('esc_in_set')
             if any(lo > hi for lo, hi in a.members):
                 f.add('reversed_range')
-        if a.kind == 'star' and prev is not None and prev.kind == 'star':
-            f.add('starstar')
+        # a '*' later in a run of wildcards that began with '*'  ("**", "*?*"): cmdline/fnmatch.c refuses a '/' there
+        if a.kind == 'star':
+            if in_star_run:
+                f.add('starstar')
+            in_star_run = True
+        elif a.kind != 'any':
+            in_star_run = False
         prev = a
     return f
 
@@ -508,6 +514,38 @@ def run_scenario(tool, model, drv, sc, base):
     return problems, cnt
 
 
+FINDING_CONTENT = 'C18-content-path-compared-textually'
+
+
+def replay_content_witness(tool, base):
+    """witness of C18_content_excluded_refuted on the real binary: a content file on a data disk, spelled
+    <data dir>/./content in the configuration, ends up in the array.  -> (reproduced, detail)"""
+    import subprocess
+    root = os.path.join(base, 'witness')
+    for d in ('d1/a', 'd2', 'p', 'c'):
+        os.makedirs(os.path.join(root, d))
+    open(os.path.join(root, 'd1/a/x'), 'w').write('x\n')
+    open(os.path.join(root, 'd2/y'), 'w').write('y\n')
+    out = {}
+    for name, spelled in (('canonical', '%s/d1/content' % root), ('dot', '%s/d1/./content' % root)):
+        for f in ('p/parity', 'c/content', 'd1/content'):
+            try:
+                os.remove(os.path.join(root, f))
+            except FileNotFoundError:
+                pass
+        open(os.path.join(root, 'conf'), 'w').write(
+            'blocksize 1\nparity %s/p/parity\ncontent %s/c/content\ncontent %s\ndata d1 %s/d1\ndata d2 %s/d2\n' % (root, root, spelled, root, root))
+        rcs = [cm.run_tool(tool, root, ['sync'])[0] for _ in range(3)]
+        log = os.path.join(root, 'w.log')
+        cm.run_tool(tool, root, ['list'], log=log)
+        files = set(cm.parse_log(log).get('file', []))
+        out[name] = {'sync_exit_codes': rcs, 'array': cm.fmt(files), 'content_line': 'content ' + spelled.replace(root, '<root>')}
+    shutil.rmtree(root, ignore_errors=True)
+    rep = (b'd1', b'content') in set((d.encode(), s.encode()) for d, s in (x.split(':', 1) for x in out['dot']['array']))
+    ok_canon = 'd1:content' not in out['canonical']['array'] and out['canonical']['sync_exit_codes'] == [0, 0, 0]
+    return rep, ok_canon, out
+
+
 def load_corpus():
     cases = []
     d = os.path.join(VERIF, 'corpus', 'C18')
@@ -606,6 +644,23 @@ def main(tier, replay=None):
                 if nprob <= 4:
                     chk.violation('%s_%d' % (tag, sc.idx), what, rep, no_input=noinp)
     ccnt['scenarios'] = nsc
+
+    # ---- the refuted theorem's witness on the real binary
+    rep, ok_canon, wout = replay_content_witness(tool, base)
+    chk.cov['content_witness'] = {'reproduced': rep, 'detail': wout}
+    if not ok_canon:
+        chk.violation('content_canonical', 'a content file on a data disk, configured with its plain path, is not skipped by sync: %s' % wout['canonical'], wout)
+    if rep:
+        what = ("the tool's own content file is NOT skipped when the configuration spells its path differently from <data dir><sub> "
+                "(witness: 'content <root>/d1/./content'): it enters the array and every later sync ends with a file error "
+                "(exit codes %s); elem.c:341-364 compares text (C18_content_excluded_refuted)" % wout['dot']['sync_exit_codes'])
+        if any(k.get('key') == FINDING_CONTENT and k.get('property') == 'C18' and k.get('status') == 'open' for k in chk.kf):
+            chk.violation('content_witness', what, wout, finding_key=FINDING_CONTENT)
+        else:
+            chk.notes.append('FINDING (not registered in known_findings.json, key %s): %s' % (FINDING_CONTENT, what))
+    else:
+        chk.notes.append('the witness of C18_content_excluded_refuted no longer reproduces on the binary (content /d1/./content is skipped): '
+                         'the refuted theorem describes a stale model')
 
     # ---- model drift: reported when the C side satisfied the reference everywhere (else the concrete inputs above say more)
     if not any(not v[2] for v in chk.violations):
